@@ -1253,9 +1253,9 @@ Proof.
                    term <> TOod /\
                    (term = TDone -> leaks s (flat_map (fun o => cover (fst o)) ops) (VObj env) = false)).
   { destruct term; try discriminate;
-      repeat (apply andb_true_iff in Hh; destruct Hh as [Hh ?]);
+      do 4 (apply andb_true_iff in Hh; destruct Hh as [Hh ?]);
       repeat match goal with H : negb _ = true |- _ => apply negb_true_iff in H end;
-      repeat split; try assumption; try discriminate; try (intros; assumption). }
+      repeat split; try assumption; try discriminate; try (intros Habs; first [discriminate Habs|assumption]). }
   clear Hh. destruct Hparts as (Hwf & Hvoc & Hrest & Hclean & Hterm & Hleak).
   unfold vocab_free in Hvoc.
   apply andb_true_iff in Hvoc. destruct Hvoc as [Hvoc Hfm].
